@@ -272,11 +272,17 @@ def check(prop_id, tier, seed, nproc=None, timeout=None):
         for s in a["samples"][:N_SAMPLES]:
             samples.append({"part": pname, "case": s})
     problems = []
+    problems_soft = []
     for part in mod.PARTS:
         a = per_part.get(part.name)
         if a is None:
             continue
         nd = sum(a["discards"].values())
+        unobservable = sum(v for k, v in a["discards"].items() if k.startswith("unobservable"))
+        if unobservable and unobservable >= 0.9 * max(a["evals"], 1):
+            # the part's observation hook does not exist in this tree (renamed internals): reported, not an error
+            problems_soft.append("part %s: not observable in this tree (%d cases)" % (part.name, unobservable))
+            continue
         if failure is None and not errors:
             floor = part.floor.get(tier, 2)
             if tier == "thorough":  # never demand a higher non-trivial RATE than half of what the quick floor implies
@@ -313,6 +319,7 @@ def check(prop_id, tier, seed, nproc=None, timeout=None):
             },
             "known_findings_reported": known_lines,
             "harness_problems": problems + [e.splitlines()[-1] if e.strip() else e for e in errors],
+            "unobservable_parts": problems_soft,
         },
         "assumptions": list(getattr(mod, "ASSUMPTIONS", [])),
         "wall_s": round(time.time() - t0, 3),
